@@ -106,6 +106,9 @@ def generate(gen, tier):
     n = 200 if tier == 'quick' else 5000
     for _ in range(n):
         cases.append({'lines': [], 'o': {'exotic': gen.rng.randrange(10**9)}})
+    # classification after a history of registrations / unregistrations (several types per namespace)
+    for _ in range(40 if tier == 'quick' else 1500):
+        cases.append({'lines': [], 'o': {'exotic': 0, 'reghist': gen.rng.randrange(10**9)}})
     return cases
 
 
@@ -238,11 +241,73 @@ def keysets_nonod(t, out):
             keysets_nonod(c, out)
 
 
+def _reghist(seed):
+    """node / leaf classification is a function of what is registered *now*: after every step of a random history of
+    registrations and unregistrations over three namespaces, an instance is an internal node exactly if its exact type is
+    registered in the queried namespace or globally (documented lookup rule), for both none_is_leaf settings"""
+    import optree
+    from run_impl import GLOBAL_NS
+    rng = random.Random(seed)
+    fails = []
+    classes = [type(f'H{i}_{seed}', (), {'__init__': lambda self, *c: setattr(self, 'children', list(c))}) for i in range(4)]
+    spaces = ['', 'h1', 'h2']
+    registered = set()
+
+    def reg(cls, ns):
+        optree.register_pytree_node(cls, lambda x: (x.children, None), lambda _, c, cls=cls: cls(*c),
+                                    namespace=ns if ns else GLOBAL_NS)
+        registered.add((cls, ns))
+
+    def unreg(cls, ns):
+        optree.unregister_pytree_node(cls, namespace=ns if ns else GLOBAL_NS)
+        registered.discard((cls, ns))
+
+    def observe(step):
+        for cls in classes:
+            inst = cls('x', 'y')
+            for q in spaces + ['h-unknown']:
+                want_node = (cls, q) in registered or (cls, '') in registered
+                for nil in (False, True):
+                    is_leaf = optree.tree_is_leaf(inst, none_is_leaf=nil, namespace=q)
+                    leaves = optree.tree_leaves([inst, None], none_is_leaf=nil, namespace=q)
+                    want_leaves = (['x', 'y'] if want_node else [inst]) + ([None] if nil else [])
+                    if bool(is_leaf) == want_node or len(leaves) != len(want_leaves) or any(a is not b for a, b in zip(leaves, want_leaves)):
+                        fails.append({'key': 'classification-after-history',
+                                      'what': f'after {step}: an instance of a class that is {"" if want_node else "not "}registered in namespace {q!r} or globally '
+                                              f'is classified as a {"leaf" if is_leaf else "node"} (none_is_leaf={nil}); leaves {leaves!r}',
+                                      'registered': sorted((c.__name__, n) for c, n in registered)})
+                        return False
+        return True
+    history = []
+    try:
+        for step in range(rng.choice([6, 8, 10, 12])):
+            cls, ns = rng.choice(classes), rng.choice(spaces)
+            if (cls, ns) in registered and rng.random() < 0.7:
+                unreg(cls, ns)
+                history.append(f'unregister {cls.__name__} in {ns!r}')
+            elif (cls, ns) not in registered:
+                reg(cls, ns)
+                history.append(f'register {cls.__name__} in {ns!r}')
+            else:
+                continue
+            if not observe('; '.join(history)):
+                break
+    finally:
+        for cls, ns in list(registered):
+            try:
+                unreg(cls, ns)
+            except Exception:  # noqa: BLE001
+                pass
+    return fails
+
+
 def same(a, b):
     return len(a) == len(b) and all(x is y for x, y in zip(a, b))
 
 
 def oracle(impl, o):
+    if 'reghist' in o:
+        return _reghist(o['reghist'])
     if 'exotic' in o:
         import optree as _optree
         from props import exotic
